@@ -3,5 +3,6 @@ CONSTANTS M = 4
   MaxQ = 2
   MaxCycles = 3
   TurnCheck = FALSE
+  AdvanceAfterHit = TRUE
   Bound = "users"
 INVARIANT NoViolation
